@@ -85,6 +85,10 @@ def main():
         return replayer.replay_file(args.replay)
     pid = args.property
     tier = args.tier if args.tier in ("quick", "thorough") else "quick"
+    if tier == "thorough":
+        # second back end: per task, every 5th VC that z3 refutes is re-checked by cvc5 (at most 80 per task)
+        os.environ.setdefault("PYVC_CVC5", "80")
+        os.environ.setdefault("PYVC_CVC5_EVERY", "5")
     t0 = time.time()
     try:
         from props import registry
